@@ -95,7 +95,9 @@ Proof.
   rewrite (HvA truth HtA h f HhA HfA HcA'), (HvB truth HtB h f HhB HfB HcB'). reflexivity.
 Qed.
 
-(* What leaves a session and what it does with what arrives (both saving modes).  After ANY run inside the space:
+(* [mode_ok sparse w d] (SessionSystem.v): rollback mode - 1 <= w, w + d + 3 <= INPUT_QUEUE_LENGTH, either saving
+   mode - or lockstep - w = 0, d + 4 <= INPUT_QUEUE_LENGTH.
+   What leaves a session and what it does with what arrives (rollback with either saving mode, and lockstep).  After ANY run inside the space:
    every round of inputs handed to the remote players ([all_sends outs]: one entry per send_input call, a map
    handle -> (frame, value)) is a frame f together with, for EVERY local player, exactly the input the session
    holds for (f, that player) - the input its own game simulates frame f with (first conjunct: the input the
@@ -108,7 +110,7 @@ Qed.
 Theorem C01_sent_inputs_are_the_simulated_inputs :
   forall (predict : Z -> Z), (forall x, predict (predict x) = predict x) -> predict 0 = 0 ->
   forall (sparse : bool) (ops : list sop) (n w d : Z) (kinds : list pkind) (eps : list (list Z)) (nspec : nat) (p : p2p) (outs : list (pout * apires)),
-  1 <= w -> 0 <= d -> w + d + 3 <= INPUT_QUEUE_LENGTH -> 0 < n -> Z.of_nat (length kinds) = n -> players_only kinds ->
+  mode_ok sparse w d -> 0 <= d -> 0 < n -> Z.of_nat (length kinds) = n -> players_only kinds ->
   srun_in predict (session_start n w sparse d kinds eps nspec) ops = Ok (p, outs) ->
   exists g gs, exec_outs w (game0 w) outs = Some g /\ QSg sparse w d p gs /\ gframe g = s_current (ps_sync p) /\
     (forall h hist low f, nth_error gs h = Some (hist, low) ->
@@ -123,7 +125,7 @@ Theorem C01_sent_inputs_are_the_simulated_inputs :
 Proof. exact sends_and_receipts_any. Qed.
 
 (* Two peers, no hypothesis about what they hold: A owns player h, B sees h as a remote player; each runs ANY
-   operation sequence of the space, with its own window, delay, saving mode and interleaving.  The one assumption
+   operation sequence of the space, with its own window (rollback or lockstep), delay, saving mode and interleaving.  The one assumption
    is the link's integrity contract [delivered_was_sent]: every input of h that arrives at B (an SRemote
    operation: frame and value) was handed to the network by A in some round (loss, duplication, delay and
    reordering of packets are absorbed below this level: the endpoint delivers each frame once, in order -
@@ -134,7 +136,7 @@ Theorem C01_two_sessions_agree :
   forall (predict : Z -> Z), (forall x, predict (predict x) = predict x) -> predict 0 = 0 ->
   forall (sparseA sparseB : bool) (opsA opsB : list sop) (n wA wB dA dB : Z) (kindsA kindsB : list pkind)
          (epsA epsB : list (list Z)) (nspecA nspecB : nat) (pA pB : p2p) (outsA outsB : list (pout * apires)),
-  1 <= wA -> 0 <= dA -> wA + dA + 3 <= INPUT_QUEUE_LENGTH -> 1 <= wB -> 0 <= dB -> wB + dB + 3 <= INPUT_QUEUE_LENGTH ->
+  mode_ok sparseA wA dA -> 0 <= dA -> mode_ok sparseB wB dB -> 0 <= dB ->
   0 < n -> Z.of_nat (length kindsA) = n -> Z.of_nat (length kindsB) = n -> players_only kindsA -> players_only kindsB ->
   srun_in predict (session_start n wA sparseA dA kindsA epsA nspecA) opsA = Ok (pA, outsA) ->
   srun_in predict (session_start n wB sparseB dB kindsB epsB nspecB) opsB = Ok (pB, outsB) ->
